@@ -57,7 +57,7 @@ theorem body_fromString (mem : List Nat) (len : Nat) (hb : ∀ b ∈ mem, b < 25
     | oob => simp
     | ok b0 =>
       have hb0 := rdR_lt hb hr
-      simp only [Res.bind_ok, body_length b0 hb0, CodecBody.fromString_utf8Offsets, utf8Offsets, sub32]
+      simp only [Res.bind_ok, body_length b0 hb0, CodecBody.fromString_tab1, utf8Offsets, sub32]
       by_cases ha : utf8IsAscii b0 = true
       · have ha' := ha
         simp only [utf8IsAscii, decide_eq_true_eq] at ha'
